@@ -30,6 +30,8 @@ def line_findings(name, line, addr_header=False):
             toks = [t for t in ln.replace(b"\t", b" ").split(b" ")]
             if any(1 + len(t) > 78 for t in toks):
                 pass          # a single token that cannot fit any line
+            elif any(b"\t" in w and 1 + len(w) > 78 for w in ln.split(b" ")):
+                out.append(("F29-tab-inside-word-not-folded", "line %d has %d octets: a word containing TABs is only folded at spaces" % (i, len(ln))))
             elif b"  " in ln or ln.endswith(b" "):
                 out.append(("F7-space-runs-not-folded", "line %d has %d octets with a run of blanks" % (i, len(ln))))
             elif i == 0:
